@@ -48,4 +48,16 @@ def handleA19 (toks : List String) : String :=
     | _, _, _ => "bad-request"
   | _ => "bad-request"
 
+/-- `F19 stack resets n src₁ … srcₙ` (`resets ≥ 1`): by `Lace.C19.runSeq_reset_eq_map` every element
+of such a history is answered as on an empty table — as on a fresh thread —, whatever came before;
+the harness reports, per element, whether lace on the session's thread and lace on a fresh thread
+agree.  The model's answer is therefore `same` for every element (sources of any size). -/
+def handleF19 (toks : List String) : String :=
+  match toks with
+  | _so :: rs :: _n :: srcs =>
+    match parseHex rs with
+    | some rs => if rs = 0 then "bad-request" else "M " ++ " ## ".intercalate (srcs.map fun _ => "same")
+    | none => "bad-request"
+  | _ => "bad-request"
+
 end Lace.Driver
